@@ -5,7 +5,7 @@
    property directly.  Termination of the MODEL is by construction (structural recursion on fuel); that the fuel the
    driver passes suffices is observed on every run (no FUEL outcome), not yet proved.  Proved so far - the tokenizer's
    behaviour on the token classes the top-level loop dispatches on (for every amount of leading horizontal whitespace): *)
-Require Import Bebop.front.Tok Bebop.front.TokInv Bebop.front.LexInv Bebop.front.Parse Bebop.front.ParseInv.
+Require Import Bebop.front.Tok Bebop.front.TokInv Bebop.front.LexInv Bebop.front.Parse Bebop.front.ParseInv Bebop.front.FmtInv Bebop.front.MsgInv.
 From Coq Require Import List NArith.
 Import ListNotations.
 
@@ -84,3 +84,28 @@ Proof.
   split; [cbn; intuition (try discriminate; eauto)|]. eexists. vm_compute. reflexivity.
 Qed.
 Print Assumptions C11_structs.
+
+(* The same with MESSAGES: a schema is any sequence of struct and message definitions; message indices are any decimal
+   literals that denote 1 .. 255 (parse_uint, leading zeros and all), distinct within a message.  For EVERY such schema
+   and EVERY layout, ReadFile returns exactly the File the text states: structs and messages each in source order, every
+   field with its index, type and name, nothing attached to the wrong definition (front/MsgInv.v). *)
+Definition C11_records_statement : Prop :=
+  forall dl l tail,
+    Forall defn_ok dl -> map snd l = defs_lex dl -> Forall (fun p => hws (fst p)) l -> sep_ok l -> hws tail ->
+    exists s', read_file (render l tail) false = POk (dfile_of dl) s'.
+Theorem C11_records : C11_records_statement.
+Proof. exact read_defs. Qed.
+
+Example C11_records_witness :
+  let A := {| ic := 65%N; itl := [] |} in let M := {| ic := 77%N; itl := [115%N] |} in
+  let i32 := {| ic := 105%N; itl := [110; 116; 51; 50]%N |} in let x := {| ic := 120%N; itl := [] |} in let y := {| ic := 121%N; itl := [] |} in
+  let one := {| xc := 49%N; xds := []; xv := 1%N |} in let n200 := {| xc := 50%N; xds := [48; 48]%N; xv := 200%N |} in
+  let dl := [DM M [(n200, (i32, x)); (one, (A, y))] 1; DS A [(i32, x)] 0] in
+  let l := dlayout dl in
+  Forall defn_ok dl /\ map snd l = defs_lex dl /\ Forall (fun p => hws (fst p)) l /\ sep_ok l /\
+  exists s', read_file (render l []) false = POk (dfile_of dl) s'.
+Proof.
+  cbv zeta. split; [repeat constructor; cbn; intuition discriminate|]. split; [apply dlayout_lex|]. split; [apply dlayout_hws|].
+  split; [apply dlayout_sep|]. eexists. vm_compute. reflexivity.
+Qed.
+Print Assumptions C11_records.
